@@ -882,13 +882,15 @@ def cert_K5(repo, tier='quick'):
     TAn, TBn = (ast.parse(x, mode='eval').body for x in (TA, TB))
     n_out = 0
     n_in = 0
+    inside_ok = [True]
     for state, val, st in rets:
         if isinstance(val, ast.Constant) and val.value == 0:
             continue
         txt = text(val)
         if 'spacetime_evaluated_1' in txt:
             n_in += 1
-            _check_inside(c, fi, state, val, st, SA, SB)
+            if not _check_inside(c, fi, state, val, st, SA, SB):
+                inside_ok[0] = False
             continue
         n_out += 1
         hk = {}
@@ -959,7 +961,12 @@ def cert_K5(repo, tier='quick'):
               'h = min(|a-x|,|b-x|), k = max(|a-x|,|b-x|) with (a,b) the '
               'space interval of the trial element',
               construct='evaluate_exact: distances h,k')
-    if n_out < 2 or n_in < 2:
+    if n_out >= 2 and n_in == 1 and not inside_ok[0]:
+        # the one in-element formula already failed its obligation (e.g. the
+        # two-sided sum taken on the closed interval, where an end point
+        # hands the distance 0 to spacetime_evaluated_1): that is the report
+        pass
+    elif n_out < 2 or n_in < 2:
         raise AnalysisError('%s: expected 2 outside and 2 inside/end-point '
                             'formulas, found %d/%d' %
                             (fi.where(), n_out, n_in))
@@ -1008,6 +1015,7 @@ def _check_inside(c, fi, state, val, st, SA, SB):
         inst = 'evaluate_exact end point'
     c.add('K5', inst, fi.where(st), ok, what + '; time arguments (t, t_a, '
           't_b) in order', construct=inst)
+    return ok
 
 
 # --------------------------------------------------------------------------
